@@ -1,7 +1,7 @@
 (* C10 — variable interpolation equals substituting the latest assigned value. *)
 From Coq Require Import List NArith Bool String.
 Import ListNotations.
-Require Import St Loop Doc.
+Require Import St Exp Proc1 Proc2 Proc3 Loop Doc VarProofs.
 Open Scope string_scope.
 Definition same_output (f a b : string) : bool := str_eqb (out_of (run_doc f 0 a)) (out_of (run_doc f 0 b)).
 Example C10_examples : forallb (fun f => same_output f ".#dv v old
@@ -15,3 +15,25 @@ u a <b> Sm w
 .Tc
 ") ["xhtml"; "latex"; "mom"; "markdown"] = true.
 Proof. vm_compute. reflexivity. Qed.
+
+(* a use yields exactly the value stored, as a string (never re-read as escapes, options or macro names) *)
+Theorem C10_use_is_value : forall x v r s, assoc x (ivars s) = Some v ->
+  inlines_text (IVar x :: r) s = ((v ++ fst (inlines_text r s))%list, snd (inlines_text r s)).
+Proof. exact use_is_value. Qed.
+Theorem C10_use_is_literal : forall x v r s, assoc x (ivars s) = Some v -> inlines_text (IVar x :: r) s = inlines_text (IText v :: r) s.
+Proof. exact use_is_literal. Qed.
+(* rendered outside automatic typography, the value is escaped like literal text *)
+Theorem C10_rendered_like_literal : forall x v r s, assoc x (ivars s) = Some v ->
+  str_eqb (lang s) (R "fr") = false -> str_eqb (lang s) (R "en") = false ->
+  render_text (IVar x :: r) s = render_text (IText v :: r) s.
+Proof. exact rendered_use_is_rendered_literal. Qed.
+(* assignment joins the texts of its arguments with single spaces, and the latest assignment is what a lookup finds *)
+Theorem C10_assigned_value : forall s o s1 n vals name s3,
+  parse_opts specOptDef (args s) s = (o, s1) -> po_args o = n :: vals -> opt "f" o = None ->
+  inlines_text n s1 = (name, s3) ->
+  assoc name (ivars (macro_def_var s)) = Some (fst (args_text vals s3)).
+Proof. exact assigned_value. Qed.
+Theorem C10_join : forall l s, l <> nil -> fst (args_text l s) = join_with [32%N] (texts l s).
+Proof. exact args_text_join. Qed.
+Print Assumptions C10_use_is_value.
+Print Assumptions C10_assigned_value.
